@@ -53,6 +53,13 @@ class C09(C01):
             if obs.get("repr_assumption_violated"):
                 out.append(Problem("disagreement", case, "assumption on float repr fails for "
                                    + repr(obs["repr_assumption_violated"]), "assumption/repr"))
+            if "built" in obs:
+                d = iolib.diff(iolib.canon(case["inst"]), iolib.canon(obs["built"]),
+                               skip=("num_edges",))
+                if d:
+                    out.append(Problem("violation", case, f"after the add_edge calls of this case the graph API "
+                                       f"(edges / outgoing_edges / nodes) does not show the edges added: differs on {d}",
+                                       "graph-api/" + ",".join(d)))
             res = obs.get("parsed")
             if res and res[0] == "ok":
                 d = res[1]
